@@ -87,6 +87,9 @@ impl Clone for ScriptContextRef {
 pub assume_specification [i64::checked_neg] (a: i64) -> (r: Option<i64>)
     ensures r == (if a == i64::MIN { None::<i64> } else { Some((0 - a) as i64) });
 
+pub assume_specification [i64::unsigned_abs] (a: i64) -> (r: u64)
+    ensures r == (if a >= 0 { a as int } else { 0 - a });
+
 /// lexicographic byte order of `String` (std `PartialOrd for String`): uninterpreted, total functions.
 pub uninterp spec fn str_lt(a: String, b: String) -> bool;
 #[verifier::external_body]
@@ -247,3 +250,45 @@ impl NativeObjectRef {
 /// `Arc<Vec<Value>>::as_ref()` (std AsRef for Arc; its spec needs the unstable Allocator parameter)
 #[verifier::external_body]
 pub fn vf_arc_vec_as_ref(a: &Arc<Vec<Value>>) -> (r: &Vec<Value>) ensures *r == **a { unimplemented!() }
+/// `r.and_then(|x| x.type_of(ctx))` on a `Result<Value, Error>` (script.rs:103,119; Verus has no spec for
+/// `Result::and_then` with a closure): std's and_then + the evaluator entry point `Value::type_of` (see above).
+pub trait VfAndThenTypeOf {
+    fn vf_and_then_type_of(self, ctx: ScriptContextRef) -> (r: Result<Type, Error>);
+}
+impl VfAndThenTypeOf for Result<Value, Error> {
+    #[verifier::external_body]
+    fn vf_and_then_type_of(self, ctx: ScriptContextRef) -> (r: Result<Type, Error>)
+        ensures self is Err ==> r is Err, self is Ok ==> r == type_spec(self->Ok_0, ctx),
+    { unimplemented!() }
+}
+
+// ---------------------------------------------------------------------------------------------
+// std / regex operations used by the string builtins (unit milu_str).  All are total (no panic) in the real crates.
+/// `s.parse::<i64>().map(Into::into)`: std `str::parse` + `Result::map` + the extracted `From<i64> for Value`.
+pub struct VfParseIntError {}
+#[verifier::external_body]
+pub fn vf_parse_i64_value(s: &String) -> (r: Result<Value, VfParseIntError>)
+    ensures r is Ok ==> r->Ok_0 is Integer,
+{ unimplemented!() }
+/// `s.split(&d).map(Into::into).collect::<Vec<Value>>()`: std `str::split` + iterator adapters + `From<&str> for Value`
+#[verifier::external_body]
+pub fn vf_split_values(s: &String, d: &String) -> (r: Vec<Value>)
+    ensures forall|i: int| 0 <= i < r@.len() ==> (#[trigger] r@[i]) is String,
+{ unimplemented!() }
+/// `ret += &sv` (std `AddAssign<&str> for String`)
+#[verifier::external_body]
+pub fn vf_string_push_str(s: &mut String, t: &String) { unimplemented!() }
+/// `regex::Regex`: `new` fails on an invalid pattern (the "invalid regular expression" dynamic error), `is_match` is total
+#[verifier::external_body]
+pub struct VfRegex { _p: u8 }
+pub struct VfRegexError {}
+impl VfRegex {
+    #[verifier::external_body]
+    pub fn new(p: &String) -> (r: Result<VfRegex, VfRegexError>) { unimplemented!() }
+    #[verifier::external_body]
+    pub fn is_match(&self, s: &String) -> (r: bool) { unimplemented!() }
+}
+impl vstd::std_specs::convert::FromSpecImpl<Vec<Value>> for Value {
+    open spec fn obeys_from_spec() -> bool { true }
+    open spec fn from_spec(v: Vec<Value>) -> Value { Value::Array(Arc::new(v)) }
+}
